@@ -176,6 +176,70 @@ def gen_case(rng, maxvals=6, kinds=('s', 's', 'i', 'f', 'ni', 'nf'), heavy_ok=Tr
     return '%s:%s:%s:%s|%s' % (K, hexs(pre), hexs(rest), mode, ' '.join(toks))
 
 
+# raw text for the scanner model (X tokens): numeric-looking text no writer produces — white space,
+# signs, leading zeros, 0x / 0 prefixes, more digits than the target holds, exponents, trailing junk
+RAW_INT_SPECS = ['li', 'ld', 'lu', 'lx', 'lo', 'd', 'i', 'u', 'x', 'o', 'lX']
+JUNK = [ord(c) for c in ',; zgq-+/:|)']
+
+
+def gen_raw_int(rng):
+    sp = rng.choice(RAW_INT_SPECS)
+    conv = sp[-1]
+    style = {'d': 'dec', 'u': 'dec', 'x': 'hex', 'X': 'hex', 'o': 'oct'}.get(conv) or rng.choice(['dec', 'dec', 'hex0x', 'oct0'])
+    n = rng.choice([1, 1, 2, 3, 5, 8, 9, 10, 11, 15, 16, 17, 18, 19, 20, 21, 22, 24])
+    if style == 'dec':
+        digs = ''.join(rng.choice('0123456789') for _ in range(n))
+        if conv == 'i' and rng.random() < .8:
+            digs = rng.choice('123456789') + digs[1:]
+    elif style in ('hex', 'hex0x'):
+        digs = ''.join(rng.choice('0123456789abcdefABCDEF') for _ in range(n))
+        if style == 'hex0x' or rng.random() < .3:
+            digs = rng.choice(['0x', '0X']) + digs
+    else:
+        digs = ''.join(rng.choice('01234567') for _ in range(n))
+        if style == 'oct0':
+            digs = '0' + digs
+    if rng.random() < .1:
+        digs = rng.choice(['9223372036854775807', '9223372036854775808', '18446744073709551615', '18446744073709551616',
+                           '2147483647', '2147483648', '4294967295', '4294967296', '0', '00', '7fffffffffffffff'][:10 if style == 'dec' else 11])
+        if style != 'dec' and not all(c in '01234567' for c in digs) and style in ('oct', 'oct0'):
+            digs = '777'
+    txt = rng.choice(['', '', ' ', '  ', '\t', '\n ']) + rng.choice(['', '', '-', '+']) + digs
+    return sp, [ord(c) for c in txt]
+
+
+def gen_raw_float(rng):
+    sp = rng.choice(['lf', 'lf', 'lf', 'f'])
+    ni, nf = rng.choice([0, 1, 1, 2, 5, 10, 17, 20, 25]), rng.choice([0, 0, 1, 3, 6, 10, 17, 20, 30])
+    if ni + nf == 0:
+        ni = 1
+    ip = ''.join(rng.choice('0123456789') for _ in range(ni))
+    fp = ''.join(rng.choice('0123456789') for _ in range(nf))
+    if rng.random() < .3:
+        ip = rng.choice(['0', '00', '1', '9', '17976931348623157', '17976931348623158', '17976931348623159', '4', '24703282292062327',
+                         '24703282292062328', '22250738585072014', '9007199254740993', '9007199254740992'])
+    txt = ip + ('.' + fp if (nf or rng.random() < .2) else '')
+    if rng.random() < .6:
+        ex = rng.choice([0, 1, -1, 5, -5, 22, -22, 37, 38, 39, -44, -45, -46, 291, 292, 307, 308, 309, -307, -308, -323, -324, -325, -340,
+                         rng.randrange(-345, 330)])
+        ex -= rng.choice([0, 0, ni - 1, ni])
+        txt += rng.choice('eE') + (rng.choice(['', '+']) if ex >= 0 else '-') + str(abs(ex))
+    txt = rng.choice(['', '', ' ', '\n']) + rng.choice(['', '', '-', '+']) + txt
+    return sp, [ord(c) for c in txt]
+
+
+def gen_raw_case(rng):
+    K = rng.choice('SF')
+    mode = rng.choice('GE')
+    pre = [rng.randrange(1, 256) for _ in range(rng.choice([0, 0, 3, rng.randrange(0, 20)]))]
+    toks = []
+    for i in range(rng.choice([1, 1, 1, 2, 3])):
+        sp, bs = gen_raw_int(rng) if rng.random() < .5 else gen_raw_float(rng)
+        toks.append('X%s:%s' % (sp, hexs(bs + [rng.choice(JUNK)])))
+    rest = [rng.randrange(1, 256) for _ in range(rng.randrange(0, 4))]
+    return '%s:%s:%s:%s|%s' % (K, hexs(pre), hexs(rest), mode, ' '.join(toks))
+
+
 # ---------------------------------------------------------------------------------------------
 def parse_case(case):
     hd, body = case.split('|', 1)
@@ -303,6 +367,8 @@ def corr(case, impl, model):
 
 
 def nontrivial(case, impl):
+    if '|X' in case or ' X' in case:
+        return True         # raw scanner text: every case carries white space, signs, prefixes, overflow or junk
     try:
         K, pre, rest, mode, toks = parse_case(case)
         vals = [i for i in map(tok_info, toks) if i[0] == 'v']
@@ -380,7 +446,8 @@ def run(ctx):
         'values) and random exponent/mantissa) written with %$ or a numeric specification (flags + space 0 #, width, precision, l), '
         'separated by literal text that cannot continue a numeric token, at start positions 0..40 behind arbitrary bytes, followed by '
         'arbitrary trailing text, through a String or a File, in one print_to/scan_from call or item by item with show_to/look_from; '
-        'plus every one-byte String; a case is non-trivial when it has more than one value, or a String containing an escaped byte or '
+        'plus every one-byte String; plus raw numeric text (white space, signs, 0x/0 prefixes, up to 24 digits, exponents -345..330, trailing junk) '
+        'read with d i u x o (with and without l) and f/lf directives, for the correspondence of the scanner model only; a case is non-trivial when it has more than one value, or a String containing an escaped byte or '
         'a byte >= 0x80, or an Int that is negative or >= 2^31, or a Float that is not an integer below 2^53; '
         'distinct = distinct implementation transcripts')
     ctx.assumptions += [
@@ -459,6 +526,12 @@ def run(ctx):
         assert wellformed(c), c
     for i in range(0, n, 2000):
         d.feed(cases[i:i + 2000])
+    # the scanner model on raw numeric text (correspondence only; the property says nothing about it)
+    nraw = 800 if quick else 30000
+    raw = [gen_raw_case(rng) for _ in range(nraw)]
+    for i in range(0, nraw, 2000):
+        d.feed(raw[i:i + 2000], 'raw')
+    ctx.cov['raw_scanner_cases'] = nraw
     hist = {}
     for c in cases:
         for t in parse_case(c)[4]:
